@@ -761,7 +761,7 @@ func main() {
 	}
 	s3 := func() {
 		if !thorough {
-			typeSweep(r, "parameters", false, headers(elemProduct([]string{"a/b", "a/c", "*/*"}, []string{"", "0", "0.5"}, pres, posts), 1, 2, []int{0, 1, 2, 3}, true, withParams), offerLists(offers4, 2), defs)
+			typeSweep(r, "parameters", false, headers(elemProduct([]string{"a/b", "a/c", "*/*"}, []string{"", "0", "0.5"}, pres, posts), 1, 2, []int{0, 1, 3}, true, withParams), offerLists(offers4, 2), defs)
 		} else {
 			pres = append(pres, []string{`b="x\"y"`}, []string{"level=1", "charset=utf-8"}, []string{`a="x;q=0"`})
 			posts = append(posts, []string{"ext=1", "e2=2"}, []string{`ext="x\"y"`})
